@@ -375,7 +375,11 @@ func range_(tokens []Token) ([2]int, error) {
 			switch token := token.(type) {
 			case pa.Ident:
 				if token.Value == "infinite" {
+					// negative infinity as lower bound, positive infinity as upper bound
 					values[i] = math.MaxInt32
+					if i == 0 {
+						values[i] = math.MinInt32
+					}
 					continue
 				}
 			case pa.Number:
